@@ -46,10 +46,19 @@ KAPPA_MAX = 1e5     # bosonic states with sum |weights| above this are cancellat
 
 # ---------------------------------------------------------------------------------------------- oracle
 
-def collect(sf, spec, backend, h, plan, seed):
-    """run at hbar = h and evaluate the plan as one history on the returned state object"""
+def raw_state(st, backend):
+    if backend == "gaussian":
+        return np.concatenate([np.ravel(st.means()), np.ravel(st.cov())])
+    if backend == "bosonic":
+        return hb._arr(np.concatenate([np.ravel(st.weights()), np.ravel(st.means()), np.ravel(st.covs())]))
+    return hb._arr(np.asarray(st.data))
+
+
+def collect(sf, spec, backend, h, plan, seed, op_cache=None):
+    """run at hbar = h and evaluate the plan as one history on the returned state object; then change the global
+    sf.hbar and ask again (a state object answers in the hbar it was generated with)"""
     try:
-        res, st = hb.run(sf, spec, backend, h, seed)
+        res, st = hb.run(sf, spec, backend, h, seed, op_cache)
     except (NotImplementedError,) as e:
         sf.hbar = 2
         return dict(raised="NotImplementedError")
@@ -58,6 +67,15 @@ def collect(sf, spec, backend, h, plan, seed):
         return dict(raised=type(e).__name__, msg=str(e)[:200])
     try:
         s = hb.s_of(h)
+        rerun = None
+        if op_cache is not None:
+            # the same Operation instances applied again (a second program built from the cache): nothing may have been
+            # left behind in them by the first application
+            try:
+                _, st_b = hb.run(sf, spec, backend, h, seed, op_cache)
+                rerun = hb.answers_differ(raw_state(st_b, backend), raw_state(st, backend), 1e-12, True)
+            except Exception as e:  # noqa: BLE001
+                rerun = "second run raised " + type(e).__name__
         homodyne_modes = {o["regs"][0] for o in spec["ops"] if o["cls"] == "MeasureHomodyne"}
         hetero_modes = {o["regs"][0] for o in spec["ops"] if o["cls"] == "MeasureHeterodyne"}
         samples = {}
@@ -73,7 +91,8 @@ def collect(sf, spec, backend, h, plan, seed):
         if backend == "gaussian":
             first = dict(means=hb.observe(sf, st, dict(m="means"), h), cov=hb.observe(sf, st, dict(m="cov"), h))
         elif backend == "bosonic":
-            first = dict(means=hb.observe(sf, st, dict(m="means"), h), cov=hb.observe(sf, st, dict(m="covs"), h))
+            first = dict(means=hb.observe(sf, st, dict(m="means"), h), cov=hb.observe(sf, st, dict(m="covs"), h),
+                         weights=hb.observe(sf, st, dict(m="weights"), h))
         answers = [hb.observe(sf, st, c, h) for c in plan]
         last = {}
         if backend == "gaussian":
@@ -81,7 +100,10 @@ def collect(sf, spec, backend, h, plan, seed):
         elif backend == "bosonic":
             last = dict(means=hb.observe(sf, st, dict(m="means"), h), cov=hb.observe(sf, st, dict(m="covs"), h))
         kappa = float(np.sum(np.abs(st.weights()))) if backend == "bosonic" else 1.0
-        return dict(samples=samples, anc=anc, answers=answers, first=first, last=last, kappa=kappa)
+        sf.hbar = 0.7 if h == 2 else 2
+        again = [hb.observe(sf, st, c, h) for c in plan]
+        return dict(samples=samples, anc=anc, answers=answers, first=first, last=last, kappa=kappa, again=again,
+                    rerun=rerun)
     finally:
         sf.hbar = 2
 
@@ -94,16 +116,39 @@ def fresh_answer(sf, spec, backend, h, call, seed):
         sf.hbar = 2
 
 
-def check_case(ctx, sf, spec, backend, h, plan, seed):
-    """the property itself on the real code.  Returns True if it failed."""
-    rp = dict(kind="twohbar", spec=spec, backend=backend, hbar=h, plan=plan, seed=seed)
+def check_case(ctx, sf, spec, backend, h, plan, seed, order="2h", share=False):
+    """the property itself on the real code.  Returns True if it failed.
+    order: the hbar values are used IN ONE PROCESS in the order 2,h / h,2 / h,2,h (caches keyed without hbar, state left
+    behind by the previous run); share: equal operations are one shared Operation instance within and across the runs."""
+    rp = dict(kind="twohbar", spec=spec, backend=backend, hbar=h, plan=plan, seed=seed, order=order, share=share)
     n0 = len(ctx.failures)
-    ref = collect(sf, spec, backend, 2.0, plan, seed)
-    if ref.get("raised") == "NotImplementedError":
-        ctx.tally("skipped:not-implemented")
-        return False
-    out = collect(sf, spec, backend, h, plan, seed)
+    cache = {} if share else None
+    third = None
+    if order == "2h":
+        ref = collect(sf, spec, backend, 2.0, plan, seed, cache)
+        if ref.get("raised") == "NotImplementedError":
+            ctx.tally("skipped:not-implemented")
+            return False
+        out = collect(sf, spec, backend, h, plan, seed, cache)
+    else:
+        out = collect(sf, spec, backend, h, plan, seed, cache)
+        if out.get("raised") == "NotImplementedError":
+            ctx.tally("skipped:not-implemented")
+            return False
+        ref = collect(sf, spec, backend, 2.0, plan, seed, cache)
+        if order == "h2h":
+            third = collect(sf, spec, backend, h, plan, seed, cache)
     ctx.oracle_cases += 1
+    if third is not None:
+        same = third.get("raised") == out.get("raised")
+        if same and "raised" not in out:
+            same = not any(hb.answers_differ(a, b, 1e-12, True) for a, b in zip(third["answers"], out["answers"])) \
+                and not any(hb.answers_differ(third["first"][k], out["first"][k], 1e-12) for k in out["first"]) \
+                and all(k in third["samples"] and not hb.answers_differ(third["samples"][k], out["samples"][k], 1e-12)
+                        for k in out["samples"])
+        if not same:
+            ctx.fail(f"{backend}:stale-after-hbar-switch", f"{backend}: the same program run at hbar={h}, then at hbar=2, then at "
+                     f"hbar={h} again gives different results in the first and third run", rp)
     if "raised" in ref or "raised" in out:
         ctx.tally("raised:" + str(ref.get("raised")))
         if ref.get("raised") != out.get("raised"):
@@ -111,6 +156,10 @@ def check_case(ctx, sf, spec, backend, h, plan, seed):
                      f"{backend} at hbar=2: {ref.get('raised', 'runs')}, at hbar={h}: {out.get('raised', 'runs')} "
                      f"{out.get('msg', '')}{ref.get('msg', '')}", rp)
         return len(ctx.failures) > n0
+    for o, hh in ((out, h), (ref, 2.0)):
+        if o.get("rerun"):
+            ctx.fail(f"{backend}:shared-operations-rerun", f"{backend} hbar={hh}: a second program built from the same Operation "
+                     f"instances gives a different state: {o['rerun']}"[:400], rp)
     for key, what in (("samples", "measurement samples"), ("anc", "ancilla samples")):
         a, b = out[key], ref[key]
         if set(a) != set(b):
@@ -122,6 +171,8 @@ def check_case(ctx, sf, spec, backend, h, plan, seed):
                 ctx.fail(f"{backend}:{key}", f"{backend} hbar={h}: {what} of mode {m} / sqrt(hbar/2) differ: {d}", rp)
                 break
     for key in ref["first"]:
+        if key == "weights" and max(ref.get("kappa", 1.0), out.get("kappa", 1.0)) > KAPPA_MAX:
+            continue      # weights of 1e10 after post-selection: products of exponentials, themselves ill-conditioned
         d = hb.answers_differ(out["first"][key], ref["first"][key], 1e-8 if backend == "bosonic" else TOL)
         if d:
             ctx.fail(f"{backend}:state-{key}", f"{backend} hbar={h}: state {key} do not scale with hbar: {d}", rp)
@@ -161,6 +212,15 @@ def check_case(ctx, sf, spec, backend, h, plan, seed):
         if d and not bad_hist:
             ctx.fail(f"{backend}:observer-mutates-{key}", f"{backend} hbar={h}: stored {key} changed after the observer "
                      f"calls {[p['m'] for p in plan]}: {d}"[:400], rp)
+    if not bad_hist:
+        # BaseState.hbar: "the value of hbar used in the generation of the state" - later changes of sf.hbar are irrelevant
+        for which, o, hh in (("hbar", out, h), ("2", ref, 2.0)):
+            for i, c in enumerate(plan):
+                d = hb.answers_differ(o["again"][i], o["answers"][i], 1e-12, True)
+                if d:
+                    ctx.fail(f"{backend}:{c['m']}:reads-global-hbar-at-call", f"{backend}: {c['m']} of a state generated at "
+                             f"hbar={hh} answers differently after sf.hbar was set to another value: {d}"[:400], rp)
+                    break
     return len(ctx.failures) > n0
 
 
@@ -190,6 +250,86 @@ def utils_states_check(ctx, sf, rng):
             ctx.fail(f"utils.states:{cls}", f"utils.states {cls}{pars} at hbar={h} differs from the prepared state: {d}", rp)
 
 
+def bosonic_prep_units_check(ctx, sf, rng):
+    """`Bosonic(weights, means, covs)` documents no units.  Exercise both candidate conventions (data in hbar = 2 units,
+    as the back end uses them today / data in units of the current hbar like `Gaussian(V, r)`): one of them has to give
+    hbar-independent physics; which one is recorded in the input distribution, not judged."""
+    h = rng.choice(hb.HBARS)
+    s = hb.s_of(h)
+    k = rng.randint(1, 3)
+    w = [round(rng.uniform(0.2, 1.0), 2) for _ in range(k)]
+    w = [x / sum(w) for x in w]
+    mu = [[round(rng.uniform(-1, 1), 2), round(rng.uniform(-1, 1), 2)] for _ in range(k)]
+    cov = []
+    for _ in range(k):
+        a, d, b = 1 + rng.choice([0.0, 0.5, 1.0]), 1 + rng.choice([0.0, 0.5]), rng.choice([0.0, 0.25])
+        cov.append([[a, b], [b, d]])
+    n = rng.choice([1, 2])
+    tail = [dict(cls="Sgate", regs=[0], pars=[0.2, 0.3]), dict(cls=rng.choice(["Xgate", "Zgate"]), regs=[0], pars=[0.4])]
+    if n == 2:
+        tail.append(dict(cls="BSgate", regs=[0, 1], pars=[0.6, 0.2]))
+    plan = [dict(m="means"), dict(m="covs"), dict(m="mean_photon", mode=0), dict(m="fidelity_vacuum"),
+            dict(m="quad_expectation", mode=0, phi=0.4), dict(m="wigner", mode=0, x=[0.3, -0.8], p=[0.1, 0.9])]
+    seed = 1
+
+    def spec_with(mu_, cov_):
+        return dict(n=n, ops=[dict(cls="Bosonic", regs=[0], pars=[w, mu_, cov_])] + tail)
+    ref = collect(sf, spec_with(mu, cov), "bosonic", 2.0, plan, seed)
+    ctx.oracle_cases += 1
+    if "raised" in ref:
+        ctx.tally("bosonic-prep-units:raised:" + ref["raised"])
+        return
+    verdict = []
+    for name, sp in (("hbar2-units", spec_with(mu, cov)),
+                     ("current-hbar-units", spec_with((np.array(mu) * s).tolist(), (np.array(cov) * s * s).tolist()))):
+        out = collect(sf, sp, "bosonic", h, plan, seed)
+        ok = "raised" not in out and not any(hb.answers_differ(a, b, 1e-8) for a, b in zip(out["answers"], ref["answers"]))
+        if ok:
+            verdict.append(name)
+    ctx.tally("bosonic-prep-units:" + ("+".join(verdict) or "none"))
+    rp = dict(kind="bosonic-prep", w=w, mu=mu, cov=cov, n=n, hbar=h)
+    ctx.count("oracle:bosonic-prep-units", rp, True)
+    if not verdict:
+        ctx.fail("bosonic:Bosonic-prep:no-consistent-units", f"Bosonic(weights, means, covs) at hbar={h}: neither data in hbar=2 "
+                 f"units nor data in units of the current hbar reproduces the hbar=2 results", rp)
+
+
+def thewalrus_hypothesis_check(ctx, sf, rng):
+    """hypothesis of `observables_invariant`: the thewalrus routines taking (mu, cov, hbar) depend on them only through
+    (mu / sqrt(hbar/2), cov / (hbar/2))"""
+    import thewalrus.quantum as twq
+    h = rng.choice(hb.HBARS)
+    s = hb.s_of(h)
+    n = rng.choice([1, 2])
+    V, r = hb.rand_cov(rng, n)
+    V, r = np.array(V), np.array(r)
+    V2, r2 = hb.rand_cov(rng, n)
+    V2, r2 = np.array(V2), np.array(r2)
+    nn = [rng.choice([0, 1, 2]) for _ in range(n)]
+    table = [
+        ("probabilities", lambda mu, cov, hh: twq.probabilities(mu, cov, 3, hbar=hh)),
+        ("density_matrix_element", lambda mu, cov, hh: twq.density_matrix_element(mu, cov, nn, nn, hbar=hh)),
+        ("density_matrix", lambda mu, cov, hh: twq.density_matrix(mu, cov, hbar=hh, normalize=True, cutoff=3)),
+        ("photon_number_expectation", lambda mu, cov, hh: twq.photon_number_expectation(mu, cov, list(range(n)), hbar=hh)),
+        ("photon_number_squared_expectation",
+         lambda mu, cov, hh: twq.photon_number_squared_expectation(mu, cov, list(range(n)), hbar=hh)),
+        ("fidelity", lambda mu, cov, hh: twq.fidelity(mu, cov, r2 * math.sqrt(hh / 2), V2 * (hh / 2), hbar=hh)),
+    ]
+    for name, fn in table:
+        ctx.oracle_cases += 1
+        ctx.tally("hypothesis:thewalrus:" + name)
+        try:
+            a = hb._arr(np.asarray(fn(r * s, V * s * s, h)))
+            b = hb._arr(np.asarray(fn(r, V, 2.0)))
+        except Exception as e:  # noqa: BLE001
+            ctx.fail(f"hypothesis:thewalrus:{name}", f"thewalrus.quantum.{name} raised {type(e).__name__}", dict(kind="thewalrus"))
+            continue
+        d = hb.answers_differ(a, b, 1e-6 if name == "fidelity" else 1e-8)     # fidelity goes through sqrtm
+        if d:
+            ctx.fail(f"hypothesis:thewalrus:{name}", f"thewalrus.quantum.{name}(mu, cov, hbar={h}) is not a function of the "
+                     f"normalised pair: {d}", dict(kind="thewalrus", fn=name, hbar=h, V=V.tolist(), r=r.tolist()))
+
+
 def oracle(ctx, sf):
     rng = ctx.rng
     plans = dict(gaussian=(8, 16), bosonic=(6, 12))
@@ -198,20 +338,31 @@ def oracle(ctx, sf):
     for backend, count in budget:
         for it in range(count):
             spec = hb.rand_program(rng, backend)
-            n = spec["n"]
+            if backend != "bosonic" and rng.random() < 0.3:
+                spec = hb.with_holes(rng, spec)
+                ctx.tally("oracle:register-with-holes", int(any(o["cls"] == "Del" for o in spec["ops"])))
+            n = hb.final_modes(spec)
             h = hb.HBARS[it % len(hb.HBARS)] if rng.random() < 0.8 else rng.choice(hb.HBARS)
             lo, hi = plans.get(backend, (4, 8))
             plan = hb.rand_plan(rng, backend, n, rng.randint(lo, hi))
             seed = rng.randrange(10 ** 6)
+            order = rng.choice(["2h", "2h", "h2", "h2", "h2h"])
+            share = rng.random() < 0.5
+            ctx.tally(f"oracle:order={order}")
+            ctx.tally("oracle:shared-op-instances", int(share))
             nt = hb.is_nontrivial(spec)
-            ctx.count(f"oracle:{backend}:n={n}", dict(s=spec, b=backend, h=h, p=plan), nt,
+            ctx.count(f"oracle:{backend}:n={n}", dict(s=spec, b=backend, h=h, p=plan, o=order, sh=share), nt,
                       sample=dict(spec=spec, backend=backend, hbar=h, plan=plan[:3]))
             for o in spec["ops"]:
                 if o["cls"] in ("Xgate", "Zgate", "Vgate", "Gaussian", "MeasureHomodyne", "MSgate"):
                     ctx.tally(f"op:{backend.split('-')[0]}:{o['cls']}")
-            check_case(ctx, sf, spec, backend, h, plan, seed)
+            check_case(ctx, sf, spec, backend, h, plan, seed, order, share)
     for _ in range(ctx.n(3, 30)):
         utils_states_check(ctx, sf, rng)
+    for _ in range(ctx.n(6, 60)):
+        bosonic_prep_units_check(ctx, sf, rng)
+    for _ in range(ctx.n(6, 60)):
+        thewalrus_hypothesis_check(ctx, sf, rng)
 
 
 # ---------------------------------------------------------------------------------------------- correspondence
@@ -229,13 +380,42 @@ def correspondence(ctx, sf):
         mu, V = us.coherent_state(r, phi, basis="gaussian", hbar=h)
         ucases.append((dict(op="hbar.utils", s=hc.fr(math.sqrt(h / 2)), re=hc.fr(a.real), im=hc.fr(a.imag)),
                        [float(mu[0]), float(mu[1]), float(V[0, 0]), float(V[1, 1]), float(V[0, 1])], dict(hbar=h, r=r, phi=phi)))
-    answers = ctx.lean([c[0] for c in fcases + rcases + scases + ucases])
+    dcases = hc.decomp_cases(ctx, sf, ctx.n(42, 420))
+    bcases = hc.bstate_cases(ctx, sf, ctx.n(105, 1050))
+    qcases = hc.fockquad_cases(ctx, sf, ctx.n(70, 700))
+    answers = ctx.lean([c[0] for c in fcases + rcases + scases + ucases + dcases + bcases + qcases])
+    k0 = len(fcases) + len(rcases) + len(scases) + len(ucases)
+    for j, (req, real, case) in enumerate(dcases):
+        model = answers[k0 + j]
+        ctx.corr_cases += 1
+        ctx.count("corr:decompose-tail", case, case["hbar"] != 2 and any(case["r"]))
+        ctx.tally("corr:decompose-tail:gates", len(real))
+        if isinstance(model, dict) or not hc.calls_equal(model, real):
+            ctx.disagree("Hbar.gaussianDecompDisp vs Gaussian._decompose displacement tail", case, str(model)[:400], str(real)[:400])
+    k0 += len(dcases)
+    for j, (req, real, case) in enumerate(bcases):
+        model = answers[k0 + j]
+        ctx.corr_cases += 1
+        ctx.count(f"corr:bosonic-state:k={case['k']}", case, case["hbar"] != 2 and case["k"] >= 2)
+        d = "model error" if isinstance(model, dict) else hc.banswers_equal(model, real)
+        if d:
+            ctx.disagree("Hbar.bMeanPhoton/bDisplacement/bQuad/bRedIdx vs BaseBosonicState methods", case, str(d)[:300], str(real)[:300])
+    k0 += len(bcases)
+    for j, (req, real, case) in enumerate(qcases):
+        model = answers[k0 + j]
+        ctx.corr_cases += 1
+        ctx.count(f"corr:fock-quad:D={case['D']}", case, case["hbar"] != 2)
+        ok = not isinstance(model, dict) and abs(hc.unfr(model[0]) - real[0]) <= 1e-9 * max(1, abs(real[0])) \
+            and abs(hc.unfr(model[1]) - real[1]) <= 1e-9 * max(1, abs(real[1]))
+        if not ok:
+            ctx.disagree("Hbar.fockQuad vs BaseFockState.quad_expectation", case, str(model)[:200], str(real)[:200])
     k = 0
     for req, real, case in fcases:
         model = answers[k]; k += 1
         ctx.corr_cases += 1
         nt = any(o["cls"] != "free" for o in case["ops"]) and case["hbar"] != 2
-        ctx.count(f"corr:frontend:hbar={case['hbar']}", case, nt, sample=case)
+        ctx.count(f"corr:frontend:hbar={case['hbar']}" + (":built-at-other-hbar" if case["hbar_build"] != case["hbar"] else ""),
+                  case, nt, sample=case)
         for o in case["ops"]:
             ctx.tally("corr:op:" + o["cls"] + (":dagger" if o.get("dagger") else ""))
         if isinstance(model, dict) or not hc.calls_equal(model, real):
@@ -284,9 +464,10 @@ def run_corpus(ctx, sf):
 def _replay(ctx, sf, rp):
     n0 = len(ctx.failures)
     if rp["kind"] == "twohbar":
-        check_case(ctx, sf, rp["spec"], rp["backend"], rp["hbar"], rp["plan"], rp.get("seed", 0))
-    elif rp["kind"] == "utils":
-        pass
+        check_case(ctx, sf, rp["spec"], rp["backend"], rp["hbar"], rp["plan"], rp.get("seed", 0), rp.get("order", "2h"),
+                   rp.get("share", False))
+    elif rp["kind"] in ("utils", "bosonic-prep", "thewalrus"):
+        pass        # regenerated from the seed by the run itself
     return len(ctx.failures) > n0
 
 
